@@ -3,10 +3,11 @@
    hand-written mock engine model used by C06 and C07 (find_exp, have_always, have_never,
    remove_first, after_use) to the code: the queue is a CgreenVector (list semantics, justified by
    Lemmas_Vector) of pointers to expectation records in a heap.  Statements only; proofs are in
-   Lemmas_Code_Mocks.v and Lemmas_Code_Mocks2.v.  (mock_(), expect_() and the tally are not
-   translated yet: they are tied by the correspondence runs only.) *)
+   Lemmas_Code_Mocks.v, Lemmas_Code_Mocks2.v and Lemmas_Code_Mocks3.v.  (expect_(), always_expect_(),
+   never_expect_(), tally_mocks() and trigger_unfulfilled_expectations() are translated and compared with the
+   model on enumerated queues by the extracted interpreter, not proved; mock_() is not translated.) *)
 From Coq Require Import List ZArith String Bool.
-From CgreenVerif Require Import CLite Mocks CodeCheck Lemmas_Code_Mocks Lemmas_Code_Mocks2.
+From CgreenVerif Require Import CLite Mocks CodeCheck Lemmas_Code_Mocks Lemmas_Code_Mocks2 Lemmas_Code_Mocks3.
 From CgreenVerif.Gen Require Import Code_mocks.
 Import ListNotations.
 Local Open Scope string_scope. Local Open Scope list_scope. Local Open Scope Z_scope.
@@ -72,6 +73,45 @@ Theorem Code_destroy_if_time_to_die_is_after_use :
       queue_z w' = model_queue_z (after_use unl (pre ++ e :: rest) (efn e) e).
 Proof. exact destroy_if_time_to_die_is_after_use. Qed.
 Print Assumptions Code_destroy_if_time_to_die_is_after_use.
+
+(* C07: remove_never_call_expectation_for(function) - what a declaration after a never-expectation does to
+   the queue - leaves exactly Mocks.remove_never's entries (the loop removes at position i and then advances,
+   so the entry that slides into position i is not examined: the model says the same), for every queue; each
+   removed record is handed to destroy_expectation() once *)
+Theorem Code_remove_never_is_remove_never :
+  forall q f unl tl tr n,
+    unl_ok unl -> (List.length q + 1 < n)%nat -> Z.of_nat (List.length q) < 2147483647 ->
+    exists w',
+      run_fun prog_mocks n "remove_never_call_expectation_for" [VLit (fn_name f)] (mw unl q tl tr) = Fine (VInt 0, w') /\
+      queue_z w' = model_queue_z (remove_never unl q f).
+Proof. exact remove_never_is_the_models. Qed.
+Print Assumptions Code_remove_never_is_remove_never.
+
+Theorem Code_remove_never_refines :
+  forall q f unl tl tr n,
+    unl_ok unl -> (List.length q + 1 < n)%nat -> Z.of_nat (List.length q) < 2147483647 ->
+    run_fun prog_mocks n "remove_never_call_expectation_for" [VLit (fn_name f)] (mw unl q tl tr) =
+    Fine (VInt 0, mwi unl (rn_idx unl q f (List.length q) (seq 0 (List.length q))) q tl
+                      (rn_trace unl q f (List.length q) (seq 0 (List.length q)) tr)).
+Proof. exact remove_never_refines. Qed.
+Print Assumptions Code_remove_never_refines.
+
+(* C07: successfully_mocked_call(name) - which decides the message kind of an unexpected call - is "the
+   name is in the list of successfully mocked calls", for every list; nothing is changed *)
+Theorem Code_successfully_mocked_call :
+  forall succ f unl q tl tr n,
+    (List.length succ + 1 < n)%nat -> Z.of_nat (List.length succ) < 2147483647 ->
+    run_fun prog_mocks n "successfully_mocked_call" [VLit (fn_name f)] (mw unl q (names_vec succ :: tl) tr) =
+    Fine (VInt (if existsb (Nat.eqb f) succ then 1 else 0), mw unl q (names_vec succ :: tl) tr).
+Proof. exact successfully_mocked_call_refines. Qed.
+Print Assumptions Code_successfully_mocked_call.
+
+(* non-vacuity: f0 has two never-expectations next to each other (the second one survives), f1 is untouched *)
+Example Code_remove_never_example :
+  exists w', run_fun prog_mocks 10 "remove_never_call_expectation_for" [VLit (fn_name 0)]
+                     (mw 254886233 [mkexp 0 1 (-254886233) [] 0 0; mkexp 0 2 (-254886233) [] 0 0; mkexp 1 3 1 [] 0 0] [] []) = Fine (VInt 0, w') /\
+             queue_z w' = model_queue_z [mkexp 0 2 (-254886233) [] 0 0; mkexp 1 3 1 [] 0 0].
+Proof. eexists. split; [vm_compute; reflexivity|vm_compute; reflexivity]. Qed.
 
 (* non-vacuity: a concrete queue; f1's first entry is the second of the queue *)
 Example Code_find_expectation_example :
